@@ -195,6 +195,19 @@ Theorem C17_scalar_amplitude_divided :
 Proof. exact scalar_amplitude_divided. Qed.
 Print Assumptions C17_scalar_amplitude_divided.
 
+(* no hidden state (histories of calls): the model has none - plane_rescale / plane_resample are functions of the
+   plane's current attributes - and the samples util.rescale produces depend only on the current shape and sample
+   values of its input: arrays that agree sample by sample (e.g. a plane edited in place and a fresh plane built
+   from the edited values) give results that agree sample by sample.  The tie runs histories of calls with setter
+   and in-place updates in between against this model. *)
+Theorem C17_result_depends_on_current_samples_only :
+  forall (o : interp) (a b : qarr) (s : Qc) (r r' : oarr),
+  qnr a = qnr b -> qnc a = qnc b -> (forall i j, qget a i j = qget b i j) ->
+  util_rescale o a s = Ok r -> util_rescale o b s = Ok r' ->
+  onr r = onr r' /\ onc r = onc r' /\ forall i j, oget r i j = oget r' i j.
+Proof. exact result_depends_on_current_samples_only. Qed.
+Print Assumptions C17_result_depends_on_current_samples_only.
+
 (* non-vacuity: a 2 x 4 float amplitude that is also the mask, scalar opd, s = 3/2: the call succeeds with
    shapes 3 x 6 and pixel scale 2/3; rows 0 and columns 0, 3 are nodes (y_0 = 0, x_0 = 0, x_3 = 2), so
    amplitude'[0,0] = a[0,0]/s, amplitude'[0,3] = a[0,2]/s; sample (1,1) is not pinned; the mask is *)
